@@ -5,6 +5,8 @@ import NxModel.DriverUtil
        (resp <result> <pid> <tickethex> <sourceKeyText|~> <addr> <port> <PID> <CID> <sid> | fail <code>)
        (resp <result> <tickethex> | fail <code>)
   -> <calls joined by |> ; <none | source hex | derived kd pid hex> ; <connect host port sid pid cid sessionkeyhex internalhex | rmc code | exc Name>
+  session <nexVersion> <clientVersion> <kd> <keySize> <pidSize> <authHost> <authPort> { ;; (<username> <passwordhex|none> <authInfo 0|1> | guest) <first> <second> }
+  -> the plans of the steps through one client object (`Backend.session`), same format, joined by " ;; "
 -/
 open Nx Nx.Backend
 
@@ -41,7 +43,34 @@ def parseSecond : List String → Option (Reply TicketResp)
     pure (.resp ⟨res, t⟩)
   | _ => none
 
+def showPlan (p : Plan) : String :=
+  "|".intercalate (p.calls.map showCall) ++ " ; " ++ showKey p.key ++ " ; " ++ showOut p.outcome
+
+def parseStep (toks : List String) : Option Step :=
+  let argsRest : Option (Args × List String) :=
+    match toks with
+    | "guest" :: rest => some (guestArgs, rest)
+    | user :: pw :: ai :: rest =>
+      (if pw = "none" then some none else (fromHex pw).map some).map fun pw => (⟨user, pw, ai = "1"⟩, rest)
+    | _ => none
+  match argsRest with
+  | some (a, rest) =>
+    match parseFirst rest with
+    | some (first, rest) => (parseSecond rest).map fun second => ⟨a, ⟨first, second⟩⟩
+    | none => none
+  | none => none
+
+def sessionLine (line : String) : String :=
+  match (line.splitOn " ;; ").map (fun part => (part.splitOn " ").filter (· ≠ "")) with
+  | ["session", nv, cv, kd, ks, ps, ah, ap] :: stepToks =>
+    match nv.toNat?, cv.toNat?, kd.toNat?, ks.toNat?, ps.toNat?, ap.toNat?, stepToks.mapM parseStep with
+    | some nv, some cv, some kd, some ks, some ps, some ap, some steps =>
+      " ;; ".intercalate ((session ⟨⟨nv, cv, kd, ks, ps, ah, ap⟩⟩ steps).map showPlan)
+    | _, _, _, _, _, _, _ => "bad-op"
+  | _ => "bad-op"
+
 def step (line : String) : String :=
+  if line.startsWith "session " then sessionLine line else
   match (line.splitOn " ").filter (· ≠ "") with
   | "plan" :: nv :: cv :: kd :: ks :: ps :: ah :: ap :: user :: pw :: ai :: rest =>
     match nv.toNat?, cv.toNat?, kd.toNat?, ks.toNat?, ps.toNat?, ap.toNat?, parseFirst rest with
@@ -49,7 +78,7 @@ def step (line : String) : String :=
       match parseSecond rest, (if pw = "none" then some none else (fromHex pw).map some) with
       | some second, some pw =>
         let p := plan ⟨nv, cv, kd, ks, ps, ah, ap⟩ ⟨user, pw, ai = "1"⟩ ⟨first, second⟩
-        "|".intercalate (p.calls.map showCall) ++ " ; " ++ showKey p.key ++ " ; " ++ showOut p.outcome
+        showPlan p
       | _, _ => "bad-op"
     | _, _, _, _, _, _, _ => "bad-op"
   | _ => "bad-op"
